@@ -46,18 +46,23 @@ namespace io
             int space = 0;
             auto initial_indent = s.tellp();
 
+            // whether there is nothing but padding in the text column of the current line
+            bool line_empty = false;
+
             if (initial_indent <= left_pad)
             {
                 s << std::setw(left_pad - initial_indent);
                 space = max_width - left_pad;
+                line_empty = true;
             }
 
             for (auto word : nitro::lang::split(in, " "))
             {
                 nitro::lang::replace_all(word, "\t", " ");
 
-                if (word.size() + 1 > static_cast<std::size_t>(max_width - left_pad) ||
-                    static_cast<int>(word.size() + 1) <= space)
+                // A word, which is too long for the text column, can't be helped. But it gets a
+                // line of its own, so only that single word sticks out.
+                if (static_cast<int>(word.size() + 1) <= space || line_empty)
                 {
                     s << ' ' << word;
                 }
@@ -68,6 +73,7 @@ namespace io
                 }
 
                 space -= static_cast<int>(word.size()) + 1;
+                line_empty = false;
             }
 
             s << std::setw(0);
